@@ -1,3 +1,1602 @@
 import ViaProofs.Statements
+import ViaProofs.Frag.Compose
+import ViaProofs.C05
+/-
+  C01 / C02 — requests are delivered (or rejected) identically however their bytes are fragmented.
+
+  `Frag/*.lean` proves the sequential-composition law for every incremental parser.  This file lifts it to
+  `request_receiver::receive` and to the per-read loop of `http_server::receive_handler`:
+
+  * `RR.receive_head_seq`      a read that ends inside the request head only advances the parser: the next
+                               read continues exactly where a single read of both would be;
+  * `RR.receive_head_fail_seq` a syntax / limit error in the head is reported with the same verdict and status
+                               whatever follows it in the read (so the verdict cannot depend on the cut);
+  * `RR.receive_body_seq`      the same for a Content-Length body in progress;
+  * `RR.feedHead_flatten_false` the naive per-call statement is FALSE (proved with a concrete witness):
+                               when the head is completed strictly inside an earlier part, the checks made right
+                               after the head (411, Expect, body length) see a different buffer in the single read.
+                               `RR.feedHead_flatten'` / `RR.feedHead_flatten_open` are the corrected statements: for
+                               every partition of the bytes into reads in which the head is not completed strictly
+                               before the last part, feeding the parts one by one gives the result of the single read;
+  * `C01_frag`                 full statement on the server loop: for every byte stream whose single-read run is
+                               clean (no INVALID, everything consumed) every partition into reads delivers the same
+                               requests and chunks to the application.
+
+  The proof of `C01_frag` uses the reachable-state invariant and the progress theorem of `C05.lean`
+  (`RR.Ok`, `RR.receive_progress`, `RR.ok_step`): without progress the per-read fuel could run out.
+  Structure: `C01.step_split` (one `receive` call on `a ++ b` versus the call on `a` followed by the rest of the
+  loop on what it left and `b`), `C01.run_split` (two reads), `C01.feedE_flatten` (any number of reads).  The two
+  runs may differ in the response code and in the interim 100-continue (whether it is sent for a Content-Length
+  body depends on the cut): `C01.Sim` / `C01.REq` relate the states and runs up to these, `C01.run_sim` shows
+  they are unobservable in `payload`.
+-/
 namespace Via
+
+namespace C01
+
+/-- `rx_request::parse` returns `true` exactly when it sets `valid` -/
+theorem RQ_parse_valid (cfg : Cfg) (q : RQ) (buf : Bytes) (hv : q.valid = false) :
+    (RQ.parse cfg q buf).1.valid = (RQ.parse cfg q buf).2.2 := by
+  unfold RQ.parse
+  dsimp only
+  repeat' split
+  all_goals simp_all
+
+theorem RQ_not_done (q : RQ) (hd : RQ.done q = false) :
+    q.valid = false ∧ RQ.fail q = false := by
+  simp only [RQ.done, Bool.or_eq_false_iff] at hd
+  simp [RQ.fail, MH.fail, hd]
+
+/-- everything `receive` does once the request head is complete -/
+def post (cfg : Cfg) (r : RR) (rp : Bool) (buf : Bytes) : RR × Bytes × Rx :=
+  if r.request.missingHost then ({ r with code := 400 }, buf, .invalid)
+  else if !r.request.headers.isChunked then RR.receiveBody cfg r rp buf
+  else RR.receiveChunk cfg r rp buf
+
+set_option linter.unusedSimpArgs false in
+/-- the first part of `receive` while the request head is being parsed -/
+theorem receive_head (cfg : Cfg) (r : RR) (buf : Bytes) (hv : r.request.valid = false) :
+    RR.receive cfg r buf =
+      (let p := RQ.parse cfg r.request buf
+       let r1 := { r with request := p.1 }
+       if p.2.2 = false then
+         if p.2.1 ≠ [] ∨ p.1.fail = true then
+           ({ r1 with code := match p.1.line.st with
+                | .errMethodLength => 501
+                | .errUriLength => 414
+                | _ => 400 }.clear, p.2.1, .invalid)
+         else (r1, p.2.1, .incomplete)
+       else
+         post cfg r1 true p.2.1) := by
+  unfold RR.receive post
+  simp only [hv, Bool.not_false, if_true]
+  generalize RQ.parse cfg r.request buf = p
+  obtain ⟨q1, rest, bo⟩ := p
+  cases bo <;> cases rest <;> cases hf : q1.fail <;> simp [hf] <;> rfl
+
+theorem receive_valid (cfg : Cfg) (r : RR) (buf : Bytes) (hv : r.request.valid = true) :
+    RR.receive cfg r buf = post cfg r false buf := by
+  unfold RR.receive post
+  simp [hv]
+
+/-- completion of a Content-Length body -/
+def finish (cfg : Cfg) (r : RR) : RR :=
+  let isHead := r.request.isHead
+  let r := { r with isHead := isHead }
+  if isHead && cfg.translateHead
+    then { r with request := { r.request with line := { r.request.line with method := (b!"GET") } } } else r
+
+/-- the number of body bytes taken from a buffer of `m` bytes when `n` are stored: `min m (cl - n)` -/
+def takeN (cl : Int) (n m : Nat) : Nat := if (m : Int) > cl - n then (cl - n).toNat else m
+
+/-- the accumulation step of the Content-Length branch -/
+def accum (cfg : Cfg) (r : RR) (buf : Bytes) : RR × Bytes × Rx :=
+  let cl : Int := r.request.headers.contentLength
+  let take : Nat := takeN cl r.body.length buf.length
+  let r1 := { r with body := r.body ++ buf.take take }
+  if (r1.body.length : Int) == cl then (finish cfg r1, buf.drop take, .valid)
+  else (r1, buf.drop take, .incomplete)
+
+/-- the TRACE check only changes the response code -/
+def pre (r : RR) : RR := if r.request.isTrace then { r with code := 405 } else r
+
+theorem receiveBody_eq (cfg : Cfg) (r : RR) (rp : Bool) (buf : Bytes) :
+    RR.receiveBody cfg r rp buf =
+      (let cl : Int := r.request.headers.contentLength
+       if (r.request.isTrace && cl != 0) || cl < 0 then (({ code := 400 } : RR), buf, .invalid)
+       else if cl > 0 && cl > (cfg.maxContent : Int) then (({ code := 413 } : RR), buf, .invalid)
+       else if !(cl > 0) && (buf.length : Int) > 0 &&
+           (r.request.headers.fields.find (b!"content-length")).isEmpty then
+         (({ code := 411 } : RR), buf, .invalid)
+       else if rp && (buf.length : Int) < cl && r.request.expectContinue && !r.continueSent then
+         ({ pre r with code := 100 }, buf, .expectContinue)
+       else accum cfg (pre r) buf) := by
+  unfold RR.receiveBody
+  dsimp only
+  cases ht : r.request.isTrace
+  · simp [pre, ht, accum, takeN, finish, RR.clear, RQ.expectContinue, RQ.isHead]
+  · by_cases h0 : r.request.headers.contentLength = 0
+    · simp [h0, pre, ht, accum, takeN, finish, RR.clear, RQ.expectContinue, RQ.isHead]
+    · simp [h0, RR.clear]
+
+
+theorem accum_short (cfg : Cfg) (r : RR) (a : Bytes)
+    (h : (r.body.length : Int) + a.length < r.request.headers.contentLength) :
+    accum cfg r a = ({ r with body := r.body ++ a }, [], .incomplete) := by
+  unfold accum takeN
+  have h1 : ¬ ((a.length : Int) > r.request.headers.contentLength - r.body.length) := by omega
+  simp only [h1, if_false, List.take_length, List.drop_length, List.length_append]
+  have h2 : ¬ ((r.body.length : Int) + a.length = r.request.headers.contentLength) := by omega
+  simp [h2]
+
+theorem accum_short_append (cfg : Cfg) (r : RR) (a b : Bytes)
+    (h : (r.body.length : Int) + a.length < r.request.headers.contentLength) :
+    accum cfg r (a ++ b) = accum cfg { r with body := r.body ++ a } b := by
+  unfold accum takeN
+  dsimp only
+  have e1 : (if ((a ++ b).length : Int) > r.request.headers.contentLength - r.body.length
+        then (r.request.headers.contentLength - r.body.length).toNat else (a ++ b).length) =
+      a.length + (if (b.length : Int) > r.request.headers.contentLength - (r.body ++ a).length
+        then (r.request.headers.contentLength - ((r.body ++ a).length : Nat)).toNat else b.length) := by
+    simp only [List.length_append]
+    split <;> split <;> omega
+  rw [e1]
+  simp only [List.take_append, List.drop_append, List.take_of_length_le (Nat.le_add_right _ _),
+    List.drop_eq_nil_of_le (Nat.le_add_right a.length _), Nat.add_sub_cancel_left, List.nil_append,
+    List.append_assoc]
+
+theorem accum_long (cfg : Cfg) (r : RR) (a b : Bytes)
+    (hpos : (r.body.length : Int) ≤ r.request.headers.contentLength)
+    (h : r.request.headers.contentLength ≤ (r.body.length : Int) + a.length) :
+    (accum cfg r a).2.2 = .valid ∧
+    accum cfg r (a ++ b) = ((accum cfg r a).1, (accum cfg r a).2.1 ++ b, .valid) := by
+  unfold accum takeN
+  dsimp only
+  have e1 : (if ((a ++ b).length : Int) > r.request.headers.contentLength - r.body.length
+        then (r.request.headers.contentLength - r.body.length).toNat else (a ++ b).length) =
+      (r.request.headers.contentLength - r.body.length).toNat := by
+    simp only [List.length_append]
+    split <;> omega
+  have e2 : (if (a.length : Int) > r.request.headers.contentLength - r.body.length
+        then (r.request.headers.contentLength - r.body.length).toNat else a.length) =
+      (r.request.headers.contentLength - r.body.length).toNat := by
+    split <;> omega
+  have hle : (r.request.headers.contentLength - r.body.length).toNat ≤ a.length := by omega
+  rw [e1, e2]
+  have e3 : ((r.body ++ a.take (r.request.headers.contentLength - r.body.length).toNat).length : Int)
+      = r.request.headers.contentLength := by
+    simp only [List.length_append, List.length_take]
+    omega
+  simp only [List.take_append_of_le_length hle, List.drop_append_of_le_length hle, e3, beq_self_eq_true,
+    if_true, and_self]
+
+/-- a Content-Length body in progress: the checks that do not depend on the buffer, then accumulation -/
+theorem post_cl (cfg : Cfg) (r : RR) (buf : Bytes) (hc : r.request.headers.isChunked = false)
+    (hpos : (r.body.length : Int) < r.request.headers.contentLength) :
+    post cfg r false buf =
+      if r.request.missingHost = true ∨ (r.request.isTrace = true ∨
+          r.request.headers.contentLength > (cfg.maxContent : Int))
+      then ((post cfg r false buf).1, buf, .invalid) else accum cfg r buf := by
+  have hcl : r.request.headers.contentLength > 0 := by omega
+  have hcl' : ¬ r.request.headers.contentLength < 0 := by omega
+  unfold post
+  rw [receiveBody_eq]
+  cases hm : r.request.missingHost
+  · cases ht : r.request.isTrace
+    · by_cases h413 : r.request.headers.contentLength > (cfg.maxContent : Int)
+      · simp [hc, hcl, hcl', h413]
+      · simp [hc, hcl, hcl', h413, pre, ht]
+    · have : r.request.headers.contentLength ≠ 0 := by omega
+      simp [hc, hcl', this]
+  · simp
+
+theorem RQ_done_of (q : RQ) (hv : q.valid = false) (hf : RQ.fail q = false) : RQ.done q = false := by
+  simp only [RQ.fail, MH.fail, Bool.or_eq_false_iff] at hf
+  simp [RQ.done, hv, hf]
+end C01
+
+/-! ### one `receive` call versus two -/
+
+theorem RR.receive_head_seq (cfg : Cfg) (r : RR) (a b : Bytes)
+    (hv : r.request.valid = false) (hd : RQ.done r.request = false)
+    (hinc : RQ.done (RQ.parse cfg r.request a).1 = false ∧ (RQ.parse cfg r.request a).2.1 = []) :
+    RR.receive cfg r a = ({ r with request := (RQ.parse cfg r.request a).1 }, [], .incomplete) ∧
+    RR.receive cfg r (a ++ b) = RR.receive cfg { r with request := (RQ.parse cfg r.request a).1 } b := by
+  obtain ⟨h1, h2⟩ := hinc
+  obtain ⟨hv1, hf1⟩ := C01.RQ_not_done _ h1
+  have hb := C01.RQ_parse_valid cfg r.request a hv
+  rw [hv1] at hb
+  have law := RQ.parse_seq cfg r.request a b hd
+  simp only [h1, h2, List.isEmpty_nil, Bool.not_true, Bool.or_self, Bool.false_eq_true, if_false] at law
+  constructor
+  · rw [C01.receive_head cfg r a hv]
+    simp [← hb, h2, hf1]
+  · rw [C01.receive_head cfg r (a ++ b) hv, C01.receive_head cfg _ b hv1, law]
+
+theorem RR.receive_head_fail_seq (cfg : Cfg) (r : RR) (a b : Bytes)
+    (hv : r.request.valid = false) (hd : RQ.done r.request = false)
+    (hfail : (RQ.parse cfg r.request a).2.2 = false ∧
+             ((RQ.parse cfg r.request a).1.fail = true ∨ (RQ.parse cfg r.request a).2.1 ≠ [])) :
+    (RR.receive cfg r a).2.2 = .invalid ∧
+    RR.receive cfg r (a ++ b) = ((RR.receive cfg r a).1, (RR.receive cfg r a).2.1 ++ b, .invalid) := by
+  obtain ⟨h1, h2⟩ := hfail
+  have law := RQ.parse_seq cfg r.request a b hd
+  have hc : (RQ.done (RQ.parse cfg r.request a).1 || !(RQ.parse cfg r.request a).2.1.isEmpty) = true := by
+    rcases h2 with h2 | h2
+    · have : RQ.done (RQ.parse cfg r.request a).1 = true := by
+        simp only [RQ.fail, MH.fail, Bool.or_eq_true] at h2
+        simp only [RQ.done, Bool.or_eq_true]
+        rcases h2 with h2 | h2
+        · exact Or.inl (Or.inr h2)
+        · exact Or.inr h2
+      simp [this]
+    · cases h : (RQ.parse cfg r.request a).2.1 with
+      | nil => exact absurd h h2
+      | cons c cs => simp
+  simp only [hc, if_true] at law
+  have hcond : ((RQ.parse cfg r.request a).2.1 ≠ [] ∨ (RQ.parse cfg r.request a).1.fail = true) := h2.symm
+  have hcond' : ((RQ.parse cfg r.request a).2.1 ++ b ≠ [] ∨ (RQ.parse cfg r.request a).1.fail = true) := by
+    rcases hcond with h | h
+    · left
+      intro e
+      exact h (List.append_eq_nil_iff.mp e).1
+    · exact Or.inr h
+  rw [C01.receive_head cfg r (a ++ b) hv, C01.receive_head cfg r a hv, law]
+  simp only [h1, if_true, hcond, hcond']
+  exact ⟨trivial, trivial⟩
+
+/-- a Content-Length body in progress: a read that does not complete it is pure accumulation -/
+theorem RR.receive_body_seq (cfg : Cfg) (r : RR) (a b : Bytes)
+    (hv : r.request.valid = true) (hc : r.request.headers.isChunked = false)
+    (hpos : (r.body.length : Int) < r.request.headers.contentLength)
+    (hinc : (RR.receive cfg r a).2.2 = .incomplete) :
+    (RR.receive cfg r a).2.1 = [] ∧
+    RR.receive cfg r (a ++ b) = RR.receive cfg (RR.receive cfg r a).1 b := by
+  rw [C01.receive_valid cfg r a hv] at hinc ⊢
+  rw [C01.receive_valid cfg r (a ++ b) hv]
+  rw [C01.post_cl cfg r a hc hpos] at hinc ⊢
+  rw [C01.post_cl cfg r (a ++ b) hc hpos]
+  by_cases hbad : r.request.missingHost = true ∨ (r.request.isTrace = true ∨
+          r.request.headers.contentLength > (cfg.maxContent : Int))
+  · simp [hbad] at hinc
+  · simp only [hbad, if_false] at hinc ⊢
+    by_cases hshort : (r.body.length : Int) + a.length < r.request.headers.contentLength
+    · rw [C01.accum_short cfg _ a hshort, C01.accum_short_append cfg _ a b hshort]
+      refine ⟨rfl, ?_⟩
+      dsimp only
+      rw [C01.receive_valid cfg { r with body := r.body ++ a } b hv,
+        C01.post_cl cfg { r with body := r.body ++ a } b hc (by simp only [List.length_append]; omega)]
+      simp only [hbad, if_false]
+    · have hl := (C01.accum_long cfg r a [] (by omega) (by omega)).1
+      rw [hl] at hinc
+      cases hinc
+
+/-- feed the parts one at a time while the head is unfinished -/
+def RR.feedHead (cfg : Cfg) (r : RR) : List Bytes → RR × Bytes × Rx
+  | [] => (r, [], .incomplete)
+  | [p] => RR.receive cfg r p
+  | p :: q :: rest =>
+    let x := RR.receive cfg r p
+    if x.2.2 == .incomplete && !x.1.request.valid && x.2.1.isEmpty then RR.feedHead cfg x.1 (q :: rest)
+    else (x.1, x.2.1 ++ (q :: rest).flatten, x.2.2)
+
+/-- the naive statement "feeding the parts while the head is unfinished equals the single read of the
+    concatenation, for EVERY partition" is false: when the head is completed strictly inside an earlier part, the
+    checks made right after the head see a different buffer in the single read.  Here `GET / HTTP/1.1`,
+    `Host: a`, blank line arrives in the first read and one more byte in the second: fed separately the request
+    is VALID (rest `X`); in a single read the byte that follows a request without Content-Length makes it
+    INVALID (411 Length Required).  (A Content-Length body continuing in the second part is another
+    counterexample: INCOMPLETE versus VALID.) -/
+theorem RR.feedHead_flatten_false :
+    ¬ (∀ (cfg : Cfg) (ps : List Bytes), (∀ p ∈ ps, p ≠ []) → ps ≠ [] →
+        ∀ (r : RR), r.request.valid = false → RQ.done r.request = false →
+          RR.feedHead cfg r ps = RR.receive cfg r ps.flatten) := by
+  intro h
+  have h1 := h {} [b!"GET / HTTP/1.1\r\nHost: a\r\n\r\n", b!"X"] (by decide) (by decide) {} rfl rfl
+  have h2 : (RR.feedHead {} {} [b!"GET / HTTP/1.1\r\nHost: a\r\n\r\n", b!"X"]).2.2 =
+      (RR.receive {} {} [b!"GET / HTTP/1.1\r\nHost: a\r\n\r\n", b!"X"].flatten).2.2 := by rw [h1]
+  revert h2
+  decide +kernel
+
+/-- `feedHead_flatten` with the hypothesis that makes it true: the request head is not completed strictly
+    before the last part (`rx_request::parse` returns `false` on every non-empty proper prefix of the parts) -/
+theorem RR.feedHead_flatten_open (cfg : Cfg) (ps : List Bytes) (hps : ps ≠ []) :
+    ∀ (r : RR), r.request.valid = false → RQ.done r.request = false →
+      (∀ qs, qs <+: ps → qs ≠ [] → qs ≠ ps → (RQ.parse cfg r.request qs.flatten).2.2 = false) →
+      RR.feedHead cfg r ps = RR.receive cfg r ps.flatten := by
+  induction ps with
+  | nil => exact absurd rfl hps
+  | cons p ps' ih =>
+    intro r hv hd H
+    cases ps' with
+    | nil => simp [RR.feedHead]
+    | cons q rest =>
+      have hp := H [p] (by simp) (by simp) (by simp)
+      simp only [List.flatten_cons, List.flatten_nil, List.append_nil] at hp
+      have hval := C01.RQ_parse_valid cfg r.request p hv
+      rw [hp] at hval
+      have e : (p :: q :: rest).flatten = p ++ (q :: rest).flatten := rfl
+      rw [RR.feedHead, e]
+      by_cases hfin : (RQ.parse cfg r.request p).1.fail = true ∨ (RQ.parse cfg r.request p).2.1 ≠ []
+      · -- rejected inside `p`
+        obtain ⟨h1, h2⟩ := RR.receive_head_fail_seq cfg r p (q :: rest).flatten hv hd ⟨hp, hfin⟩
+        rw [h2]
+        simp [h1]
+      · -- `p` ends inside the head
+        have hf : (RQ.parse cfg r.request p).1.fail = false := by
+          cases h : (RQ.parse cfg r.request p).1.fail
+          · rfl
+          · exact absurd (Or.inl h) hfin
+        have hr : (RQ.parse cfg r.request p).2.1 = [] := by
+          cases h : (RQ.parse cfg r.request p).2.1
+          · rfl
+          · exact absurd (Or.inr (by simp [h])) hfin
+        have hd1 := C01.RQ_done_of _ hval hf
+        obtain ⟨h1, h2⟩ := RR.receive_head_seq cfg r p (q :: rest).flatten hv hd ⟨hd1, hr⟩
+        rw [h2, h1]
+        simp only [hval, beq_self_eq_true, Bool.not_false, Bool.and_self, List.isEmpty_nil, if_true]
+        apply ih (by simp) _ hval hd1
+        intro qs hpre hne hne'
+        have := H (p :: qs) (by simpa using hpre) (by simp) (by simpa using hne')
+        rw [List.flatten_cons, RQ.parse_seq cfg r.request p qs.flatten hd] at this
+        simpa [hd1, hr] using this
+
+/-- the corrected `feedHead_flatten`: for every partition of the bytes into reads such that the request head is
+    still unfinished after every non-empty proper prefix of the reads, feeding the parts one by one equals the
+    single read of the concatenation -/
+theorem RR.feedHead_flatten' (cfg : Cfg) (ps : List Bytes) (hps : ps ≠ []) :
+    ∀ (r : RR), r.request.valid = false → RQ.done r.request = false →
+      (∀ qs, qs <+: ps → qs ≠ [] → qs ≠ ps →
+        RQ.done (RQ.parse cfg r.request qs.flatten).1 = false ∧ (RQ.parse cfg r.request qs.flatten).2.1 = []) →
+      RR.feedHead cfg r ps = RR.receive cfg r ps.flatten := by
+  intro r hv hd H
+  apply RR.feedHead_flatten_open cfg ps hps r hv hd
+  intro qs h1 h2 h3
+  have hval := C01.RQ_parse_valid cfg r.request qs.flatten hv
+  rw [(C01.RQ_not_done _ (H qs h1 h2 h3).1).1] at hval
+  exact hval.symm
+
+/-- the hypothesis of `feedHead_flatten'` is satisfiable: a request head cut in the middle of the request line -/
+example : RR.feedHead {} {} [b!"GET / HT", b!"TP/1.1\r\nHost: a\r\n\r\n"] =
+    RR.receive {} {} (b!"GET / HTTP/1.1\r\nHost: a\r\n\r\n") := by
+  apply RR.feedHead_flatten' {} _ (by decide) {} rfl rfl
+  intro qs hpre hne hne'
+  match qs, hpre, hne, hne' with
+  | [], _, hne, _ => exact absurd rfl hne
+  | [q], hpre, _, _ =>
+    have : q = b!"GET / HT" := (List.cons_prefix_cons.mp hpre).1
+    subst this
+    decide +kernel
+  | [q1, q2], hpre, _, hne' =>
+    exfalso
+    apply hne'
+    have h1 := List.cons_prefix_cons.mp hpre
+    have h2 := List.cons_prefix_cons.mp h1.2
+    rw [h1.1, h2.1]
+  | q1 :: q2 :: q3 :: qs, hpre, _, _ =>
+    exfalso
+    have h1 := List.cons_prefix_cons.mp hpre
+    have h2 := List.cons_prefix_cons.mp h1.2
+    have := h2.2
+    simp at this
+
+/-! ### the server loop over a list of reads -/
+
+/-- `http_server::receive_handler` applied to successive reads -/
+def RR.feed (cfg : Cfg) (r : RR) : List Bytes → RR × List Delivery
+  | [] => (r, [])
+  | rd :: rest =>
+    let x := RR.readLoop cfg (rd.length + 1) r rd []
+    let y := RR.feed cfg x.1 rest
+    (y.1, x.2.2 ++ y.2)
+
+/-- what a request / chunk handler can observe of the receiver -/
+structure View where
+  rx : Rx
+  method : Bytes
+  uri : Bytes
+  major : Byte
+  minor : Byte
+  fields : Fields
+  body : Bytes
+  isHead : Bool
+  chunkSize : Nat
+  chunkExt : Bytes
+  chunkData : Bytes
+  trailers : Fields
+deriving DecidableEq, Repr
+
+def viewOf (d : Delivery) : View :=
+  let r := d.snapshot
+  { rx := d.rx, method := r.request.line.method, uri := r.request.line.uri, major := r.request.line.major,
+    minor := r.request.line.minor, fields := r.request.headers.fields, body := r.body, isHead := r.isHead,
+    chunkSize := r.chunk.hdr.size, chunkExt := r.chunk.hdr.ext, chunkData := r.chunk.data,
+    trailers := r.chunk.trailers.fields }
+
+/-- the deliveries to the request and chunk handlers (INCOMPLETE and the interim EXPECT_CONTINUE are not deliveries
+    of a request) -/
+def payload (ds : List Delivery) : List View :=
+  (ds.filter fun d => d.rx == .valid || d.rx == .chunk).map viewOf
+
+/-- the single-read run is clean: nothing is rejected and every byte is consumed -/
+def Clean (cfg : Cfg) (bs : Bytes) : Prop :=
+  let x := RR.readLoop cfg (bs.length + 1) {} bs []
+  x.2.1 = [] ∧ ∀ d ∈ x.2.2, d.rx ≠ .invalid
+
+/-- C01 (fragmentation part): whatever the stream of requests, if it is accepted when it arrives in a single read
+    then every division of its bytes into successive non-empty reads delivers exactly the same requests and chunks,
+    in the same order, with the same method, target, version, header fields, body, chunk data, extensions and
+    trailers. -/
+def C01_frag_statement : Prop :=
+  ∀ (cfg : Cfg) (bs : Bytes), Clean cfg bs →
+    ∀ (ps : List Bytes), ps.flatten = bs → (∀ p ∈ ps, p ≠ []) →
+      payload (RR.feed cfg {} ps).2 = payload (RR.feed cfg {} [bs]).2
+
+end Via
+
+namespace Via
+
+namespace C01
+
+/-! ### `rx_chunk::parse` returns `true` exactly when it sets `valid` -/
+
+theorem CK_lf_valid (k : CK) (x : Bytes) (hv : k.valid = false) :
+    (Cmp.CK_lf k x).1.valid = (Cmp.CK_lf k x).2.2 := by
+  cases x with
+  | nil => exact hv
+  | cons d ds =>
+    simp only [Cmp.CK_lf]
+    split
+    · exact hv
+    · rfl
+
+theorem CK_tail_valid (cfg : Cfg) (k : CK) (x : Bytes) (hv : k.valid = false) :
+    (Cmp.CK_tail cfg k x).1.valid = (Cmp.CK_tail cfg k x).2.2 := by
+  cases x with
+  | nil => exact hv
+  | cons c cs =>
+    simp only [Cmp.CK_tail]
+    split
+    · exact CK_lf_valid _ _ hv
+    · split
+      · exact hv
+      · exact CK_lf_valid _ _ hv
+
+theorem CK_body_valid (cfg : Cfg) (k : CK) (x : Bytes) (hv : k.valid = false) :
+    (Cmp.CK_body cfg k x).1.valid = (Cmp.CK_body cfg k x).2.2 := by
+  unfold Cmp.CK_body
+  split
+  · dsimp only
+    split
+    · exact hv
+    · rfl
+  · rw [Cmp.CK_parseData_eq]
+    split
+    · exact CK_tail_valid cfg _ _ hv
+    · exact hv
+
+theorem CK_parse_valid (cfg : Cfg) (k : CK) (x : Bytes) (hv : k.valid = false) :
+    (CK.parse cfg k x).1.valid = (CK.parse cfg k x).2.2 := by
+  rw [Cmp.CK_parse_eq]
+  unfold Cmp.seq2
+  split
+  · exact CK_body_valid cfg k x hv
+  · dsimp only
+    split
+    · exact CK_body_valid cfg _ _ hv
+    · exact hv
+
+/-! ### the chunked branch in normal form -/
+
+/-- the previous chunk is dropped when a new one starts -/
+def reset (r : RR) : RR := if r.chunk.valid then { r with chunk := {} } else r
+
+/-- parse chunk bytes and classify the result -/
+def chunkParse (cfg : Cfg) (r : RR) (buf : Bytes) : RR × Bytes × Rx :=
+  let p := CK.parse cfg r.chunk buf
+  let r := { r with chunk := p.1 }
+  if !p.2.2 && (!p.2.1.isEmpty || r.chunk.fail) then ({ r with code := 400 }.clear, p.2.1, .invalid)
+  else if r.chunk.valid then
+    if cfg.concatChunks then
+      if r.chunk.isLast then (r, p.2.1, .valid)
+      else if r.body.length + r.chunk.data.length > cfg.maxContent then
+        ({ r with code := 413 }.clear, p.2.1, .invalid)
+      else ({ r with body := r.body ++ r.chunk.data }, p.2.1, .incomplete)
+    else (r, p.2.1, .chunk)
+  else (r, p.2.1, .incomplete)
+
+theorem receiveChunk_eq (cfg : Cfg) (r : RR) (rp : Bool) (buf : Bytes) :
+    RR.receiveChunk cfg r rp buf =
+      if rp && (r.request.expectContinue && !r.continueSent) then
+        ({ reset r with code := 100 }, buf, .expectContinue)
+      else if rp && !cfg.concatChunks then (reset r, buf, .valid)
+      else chunkParse cfg (reset r) buf := by
+  have h1 : (reset r).request = r.request := by unfold reset; split <;> rfl
+  have h2 : (reset r).continueSent = r.continueSent := by unfold reset; split <;> rfl
+  unfold RR.receiveChunk
+  change (match (if rp then
+      if (reset r).request.expectContinue && !(reset r).continueSent then some Rx.expectContinue
+      else if !cfg.concatChunks then some .valid else none
+    else none : Option Rx) with
+    | some .expectContinue => ({ reset r with code := 100 }, buf, Rx.expectContinue)
+    | some x => (reset r, buf, x)
+    | none => chunkParse cfg (reset r) buf) = _
+  rw [h1, h2]
+  cases rp <;> cases (r.request.expectContinue && !r.continueSent) <;> cases cfg.concatChunks <;> rfl
+
+theorem reset_facts (r : RR) : (reset r).request = r.request ∧ (reset r).body = r.body ∧
+    (reset r).continueSent = r.continueSent ∧ (reset r).isHead = r.isHead ∧ (reset r).code = r.code ∧
+    (reset r).chunk.valid = false ∧
+    ((r.chunk.valid = false → CK.done r.chunk = false) → CK.done (reset r).chunk = false) := by
+  unfold reset
+  split
+  · exact ⟨rfl, rfl, rfl, rfl, rfl, rfl, fun _ => rfl⟩
+  · rename_i h
+    have : r.chunk.valid = false := by simpa using h
+    exact ⟨rfl, rfl, rfl, rfl, rfl, this, fun h => h this⟩
+
+
+theorem CK_fail_of_done (k : CK) (hv : k.valid = false) (hd : CK.done k = true) : CK.fail k = true := by
+  simp only [CK.done, hv, Bool.false_or] at hd
+  simpa [CK.fail, MH.fail] using hd
+
+theorem CK_done_of (k : CK) (hv : k.valid = false) (hf : CK.fail k = false) : CK.done k = false := by
+  simp only [CK.fail, MH.fail, Bool.or_eq_false_iff] at hf
+  simp [CK.done, hv, hf]
+
+theorem chunkParse_fin (cfg : Cfg) (r : RR) (x b : Bytes) (hv : r.chunk.valid = false)
+    (hd : CK.done r.chunk = false)
+    (hc : (CK.done (CK.parse cfg r.chunk x).1 || !(CK.parse cfg r.chunk x).2.1.isEmpty) = true) :
+    chunkParse cfg r (x ++ b) =
+      ((chunkParse cfg r x).1, (chunkParse cfg r x).2.1 ++ b, (chunkParse cfg r x).2.2) := by
+  have law := CK.parse_seq cfg r.chunk x b hd
+  have hval := CK_parse_valid cfg r.chunk x hv
+  simp only [hc, if_true] at law
+  unfold chunkParse
+  rw [law]
+  generalize CK.parse cfg r.chunk x = P at hc hval
+  obtain ⟨k1, rest, bo⟩ := P
+  dsimp only at hc hval ⊢
+  have hcond : (!bo && (!(rest ++ b).isEmpty || k1.fail)) = (!bo && (!rest.isEmpty || k1.fail)) := by
+    cases bo with
+    | true => rfl
+    | false =>
+      cases rest with
+      | cons c cs => simp
+      | nil =>
+        have : CK.done k1 = true := by simpa using hc
+        simp [CK_fail_of_done k1 hval this]
+  rw [hcond]
+  repeat' split
+  all_goals rfl
+
+theorem chunkParse_cont (cfg : Cfg) (r : RR) (x b : Bytes) (hv : r.chunk.valid = false)
+    (hd : CK.done r.chunk = false)
+    (hc : (CK.done (CK.parse cfg r.chunk x).1 || !(CK.parse cfg r.chunk x).2.1.isEmpty) = false) :
+    chunkParse cfg r x = ({ r with chunk := (CK.parse cfg r.chunk x).1 }, [], .incomplete) ∧
+    (CK.parse cfg r.chunk x).1.valid = false ∧ CK.done (CK.parse cfg r.chunk x).1 = false ∧
+    chunkParse cfg r (x ++ b) = chunkParse cfg { r with chunk := (CK.parse cfg r.chunk x).1 } b := by
+  have law := CK.parse_seq cfg r.chunk x b hd
+  have hval := CK_parse_valid cfg r.chunk x hv
+  simp only [hc, Bool.false_eq_true, if_false] at law
+  simp only [Bool.or_eq_false_iff, Bool.not_eq_false', List.isEmpty_iff] at hc
+  obtain ⟨hc1, hc2⟩ := hc
+  have hv1 : (CK.parse cfg r.chunk x).1.valid = false := by
+    simp only [CK.done, Bool.or_eq_false_iff] at hc1
+    exact hc1.1.1
+  have hf1 : (CK.parse cfg r.chunk x).1.fail = false := by
+    simp only [CK.done, Bool.or_eq_false_iff] at hc1
+    simp [CK.fail, MH.fail, hc1]
+  refine ⟨?_, hv1, hc1, ?_⟩
+  · unfold chunkParse
+    rw [hv1] at hval
+    simp [← hval, hc2, hf1, hv1]
+  · unfold chunkParse
+    rw [law]
+
+/-! ### facts about the Content-Length branch -/
+
+theorem pre_facts (r : RR) : (pre r).request = r.request ∧ (pre r).chunk = r.chunk ∧ (pre r).body = r.body ∧
+    (pre r).continueSent = r.continueSent ∧ (pre r).isHead = r.isHead := by
+  unfold pre
+  split <;> exact ⟨rfl, rfl, rfl, rfl, rfl⟩
+
+theorem finish_mod (cfg : Cfg) (r : RR) (c : Nat) (s : Bool) :
+    finish cfg { r with code := c, continueSent := s } = { finish cfg r with code := c, continueSent := s } := by
+  unfold finish
+  dsimp only
+  split <;> rfl
+
+theorem accum_mod (cfg : Cfg) (r : RR) (buf : Bytes) (c : Nat) (s : Bool) :
+    accum cfg { r with code := c, continueSent := s } buf =
+      ({ (accum cfg r buf).1 with code := c, continueSent := s }, (accum cfg r buf).2) := by
+  unfold accum
+  dsimp only
+  split
+  · have := finish_mod cfg
+      { r with body := r.body ++ buf.take (takeN r.request.headers.contentLength r.body.length buf.length) } c s
+    exact Prod.ext this rfl
+  · rfl
+
+theorem finish_facts (cfg : Cfg) (r : RR) : (finish cfg r).request.valid = r.request.valid ∧
+    (finish cfg r).request.headers = r.request.headers ∧
+    (finish cfg r).continueSent = r.continueSent ∧ (finish cfg r).chunk = r.chunk ∧
+    (finish cfg r).body = r.body := by
+  unfold finish
+  dsimp only
+  split <;> exact ⟨rfl, rfl, rfl, rfl, rfl⟩
+
+theorem accum_facts (cfg : Cfg) (r : RR) (buf : Bytes) : (accum cfg r buf).1.request.valid = r.request.valid ∧
+    (accum cfg r buf).1.request.headers = r.request.headers ∧
+    (accum cfg r buf).1.continueSent = r.continueSent ∧ (accum cfg r buf).1.chunk = r.chunk ∧
+    ((accum cfg r buf).2.2 = .valid ∨ (accum cfg r buf).2.2 = .incomplete) := by
+  unfold accum
+  dsimp only
+  split
+  · obtain ⟨h1, h2, h3, h4, _⟩ := finish_facts cfg
+      { r with body := r.body ++ List.take (takeN r.request.headers.contentLength r.body.length buf.length) buf }
+    exact ⟨h1, h2, h3, h4, Or.inl rfl⟩
+  · exact ⟨rfl, rfl, rfl, rfl, Or.inr rfl⟩
+
+/-- a Content-Length body being received (head complete in an earlier call) -/
+theorem receive_acc (cfg : Cfg) (r : RR) (buf : Bytes) (hv : r.request.valid = true)
+    (hm : r.request.missingHost = false) (hc : r.request.headers.isChunked = false)
+    (ht : r.request.isTrace = false) (hcl : r.request.headers.contentLength > 0)
+    (h413 : ¬ r.request.headers.contentLength > (cfg.maxContent : Int)) :
+    RR.receive cfg r buf = accum cfg r buf := by
+  rw [receive_valid cfg r buf hv]
+  unfold post
+  rw [receiveBody_eq]
+  have : ¬ r.request.headers.contentLength < 0 := by omega
+  simp [hm, hc, ht, hcl, h413, this, pre]
+
+/-! ### the server loop without the `used` bookkeeping -/
+
+/-- a delivery without the byte count -/
+abbrev Ev := Rx × RR
+
+def ev (d : Delivery) : Ev := (d.rx, d.snapshot)
+
+def viewE (e : Ev) : View := viewOf { rx := e.1, used := 0, snapshot := e.2 }
+
+def pay (es : List Ev) : List View :=
+  (es.filter fun e => e.1 == .valid || e.1 == .chunk).map viewE
+
+def okE (es : List Ev) : Prop := ∀ e ∈ es, e.1 ≠ .invalid
+
+theorem payload_eq_pay (ds : List Delivery) : payload ds = pay (ds.map ev) := by
+  simp only [payload, pay, List.filter_map, List.map_map]
+  rfl
+
+theorem pay_append (xs ys : List Ev) : pay (xs ++ ys) = pay xs ++ pay ys := by
+  simp [pay]
+
+theorem pay_cons (e : Ev) (xs : List Ev) : pay (e :: xs) = pay [e] ++ pay xs :=
+  pay_append [e] xs
+
+theorem okE_cons (e : Ev) (xs : List Ev) : okE (e :: xs) ↔ e.1 ≠ .invalid ∧ okE xs := by
+  simp [okE]
+
+theorem okE_append (xs ys : List Ev) : okE (xs ++ ys) ↔ okE xs ∧ okE ys := by
+  simp only [okE, List.mem_append]
+  constructor
+  · intro h; exact ⟨fun e he => h e (Or.inl he), fun e he => h e (Or.inr he)⟩
+  · rintro ⟨h1, h2⟩ e (he | he)
+    · exact h1 e he
+    · exact h2 e he
+
+/-- `RR.readLoop` without accumulator and byte counts -/
+def loop (cfg : Cfg) : Nat → RR → Bytes → RR × Bytes × List Ev
+  | 0, r, buf => (r, buf, [])
+  | fuel + 1, r, buf =>
+    if buf.isEmpty then (r, buf, [])
+    else
+      let p := RR.receive cfg r buf
+      let r' := RR.afterResult cfg p.1 p.2.2
+      if p.2.2 == .invalid then (r', p.2.1, [(p.2.2, p.1)])
+      else
+        let y := loop cfg fuel r' p.2.1
+        (y.1, y.2.1, (p.2.2, p.1) :: y.2.2)
+
+theorem readLoop_loop (cfg : Cfg) : ∀ (fuel : Nat) (r : RR) (buf : Bytes) (acc : List Delivery),
+    (RR.readLoop cfg fuel r buf acc).1 = (loop cfg fuel r buf).1 ∧
+    (RR.readLoop cfg fuel r buf acc).2.1 = (loop cfg fuel r buf).2.1 ∧
+    (RR.readLoop cfg fuel r buf acc).2.2.map ev = acc.reverse.map ev ++ (loop cfg fuel r buf).2.2 := by
+  intro fuel
+  induction fuel with
+  | zero => intro r buf acc; simp [RR.readLoop, loop]
+  | succ fuel ih =>
+    intro r buf acc
+    simp only [RR.readLoop, loop]
+    split
+    · simp
+    · split
+      · simp [ev]
+      · obtain ⟨h1, h2, h3⟩ := ih (RR.afterResult cfg (RR.receive cfg r buf).1 (RR.receive cfg r buf).2.2)
+          (RR.receive cfg r buf).2.1
+          ({ rx := (RR.receive cfg r buf).2.2, used := buf.length - (RR.receive cfg r buf).2.1.length,
+             snapshot := (RR.receive cfg r buf).1 } :: acc)
+        refine ⟨h1, h2, ?_⟩
+        rw [h3]
+        simp [ev]
+
+/-- the loop with the fuel the server gives it -/
+def run (cfg : Cfg) (r : RR) (buf : Bytes) : RR × Bytes × List Ev := loop cfg (buf.length + 1) r buf
+
+/-- the reads one after the other -/
+def feedE (cfg : Cfg) (r : RR) : List Bytes → RR × List Ev
+  | [] => (r, [])
+  | rd :: rest =>
+    let x := run cfg r rd
+    let y := feedE cfg x.1 rest
+    (y.1, x.2.2 ++ y.2)
+
+theorem feed_feedE (cfg : Cfg) (ps : List Bytes) : ∀ r : RR,
+    (RR.feed cfg r ps).1 = (feedE cfg r ps).1 ∧ (RR.feed cfg r ps).2.map ev = (feedE cfg r ps).2 := by
+  induction ps with
+  | nil => intro r; simp [RR.feed, feedE]
+  | cons p ps ih =>
+    intro r
+    obtain ⟨h1, h2, h3⟩ := readLoop_loop cfg (p.length + 1) r p []
+    simp only [RR.feed, feedE, run]
+    rw [h1]
+    obtain ⟨i1, i2⟩ := ih (loop cfg (p.length + 1) r p).1
+    refine ⟨i1, ?_⟩
+    rw [List.map_append, h3, i2]
+    simp
+
+/-! ### the reachable-state invariant -/
+
+def Inv (r : RR) : Prop :=
+  RR.Ok r ∧
+  (r.request.valid = false → RQ.done r.request = false ∧ r.continueSent = false) ∧
+  (r.chunk.valid = false → CK.done r.chunk = false)
+
+theorem inv_init : Inv {} := by
+  refine ⟨RR.ok_init, ?_, ?_⟩
+  · intro _; exact ⟨rfl, rfl⟩
+  · intro _; rfl
+
+theorem chunkParse_shape (cfg : Cfg) (r : RR) (buf : Bytes) (hv : r.chunk.valid = false) :
+    (chunkParse cfg r buf).2.2 = .invalid ∨
+    ((chunkParse cfg r buf).1.request = r.request ∧
+     ((chunkParse cfg r buf).1.chunk.valid = false → CK.done (chunkParse cfg r buf).1.chunk = false)) := by
+  have hval := CK_parse_valid cfg r.chunk buf hv
+  unfold chunkParse
+  dsimp only
+  by_cases h1 : (!(CK.parse cfg r.chunk buf).2.2 &&
+      (!(CK.parse cfg r.chunk buf).2.1.isEmpty || (CK.parse cfg r.chunk buf).1.fail)) = true
+  · rw [if_pos h1]; exact Or.inl rfl
+  · rw [if_neg h1]
+    by_cases h2 : (CK.parse cfg r.chunk buf).1.valid = true
+    · rw [if_pos h2]
+      repeat' split
+      all_goals first
+        | exact Or.inl rfl
+        | exact Or.inr ⟨rfl, fun h => by rw [h2] at h; cases h⟩
+    · rw [if_neg h2]
+      right
+      refine ⟨rfl, fun _ => ?_⟩
+      have h2' : (CK.parse cfg r.chunk buf).1.valid = false := by simpa using h2
+      rw [h2'] at hval
+      have hf : (CK.parse cfg r.chunk buf).1.fail = false := by
+        cases hf : (CK.parse cfg r.chunk buf).1.fail
+        · rfl
+        · exfalso; apply h1; simp [← hval, hf]
+      exact CK_done_of _ h2' hf
+
+theorem post_shape (cfg : Cfg) (r : RR) (rp : Bool) (buf : Bytes) (hv : r.request.valid = true)
+    (hC : r.chunk.valid = false → CK.done r.chunk = false) :
+    (post cfg r rp buf).2.2 = .invalid ∨
+    ((post cfg r rp buf).1.request.valid = true ∧
+     ((post cfg r rp buf).1.chunk.valid = false → CK.done (post cfg r rp buf).1.chunk = false)) := by
+  unfold post
+  split
+  · exact Or.inl rfl
+  · split
+    · rw [receiveBody_eq]
+      dsimp only
+      obtain ⟨p1, p2, _⟩ := pre_facts r
+      repeat' split
+      all_goals first
+        | exact Or.inl rfl
+        | exact Or.inr ⟨by rw [p1]; exact hv, by rw [p2]; exact hC⟩
+        | skip
+      obtain ⟨a1, _, _, a4, _⟩ := accum_facts cfg (pre r) buf
+      exact Or.inr ⟨by rw [a1, p1]; exact hv, by rw [a4, p2]; exact hC⟩
+    · rw [receiveChunk_eq]
+      obtain ⟨f1, _, _, _, _, f6, f7⟩ := reset_facts r
+      split
+      · exact Or.inr ⟨by rw [f1]; exact hv, fun _ => f7 hC⟩
+      · split
+        · exact Or.inr ⟨by rw [f1]; exact hv, fun _ => f7 hC⟩
+        · rcases chunkParse_shape cfg (reset r) buf f6 with h | ⟨h1, h2⟩
+          · exact Or.inl h
+          · exact Or.inr ⟨by rw [h1, f1]; exact hv, h2⟩
+
+/-- what the invariant needs from a `receive` result -/
+theorem receive_shape (cfg : Cfg) (r : RR) (buf : Bytes) (h : Inv r) :
+    (RR.receive cfg r buf).2.2 = .invalid ∨
+    (((RR.receive cfg r buf).1.request.valid = false →
+        RQ.done (RR.receive cfg r buf).1.request = false ∧ (RR.receive cfg r buf).1.continueSent = false ∧
+        (RR.receive cfg r buf).2.2 = .incomplete) ∧
+     ((RR.receive cfg r buf).1.chunk.valid = false → CK.done (RR.receive cfg r buf).1.chunk = false)) := by
+  obtain ⟨_, hA, hC⟩ := h
+  by_cases hv : r.request.valid = true
+  · rw [receive_valid cfg r buf hv]
+    rcases post_shape cfg r false buf hv hC with h | ⟨h1, h2⟩
+    · exact Or.inl h
+    · exact Or.inr ⟨fun h => (by rw [h1] at h; cases h), h2⟩
+  · have hv' : r.request.valid = false := by simpa using hv
+    obtain ⟨hd, hcs⟩ := hA hv'
+    have hval := RQ_parse_valid cfg r.request buf hv'
+    rw [receive_head cfg r buf hv']
+    dsimp only
+    split
+    · rename_i hbo
+      split
+      · exact Or.inl rfl
+      · rename_i hfin
+        right
+        rw [hbo] at hval
+        have hf : (RQ.parse cfg r.request buf).1.fail = false := by
+          cases h : (RQ.parse cfg r.request buf).1.fail
+          · rfl
+          · exact absurd (Or.inr h) hfin
+        exact ⟨fun _ => ⟨RQ_done_of _ hval hf, hcs, rfl⟩, hC⟩
+    · rename_i hbo
+      have hbo' : (RQ.parse cfg r.request buf).2.2 = true := by simpa using hbo
+      rw [hbo'] at hval
+      rcases post_shape cfg { r with request := (RQ.parse cfg r.request buf).1 } true
+        (RQ.parse cfg r.request buf).2.1 hval hC with h | ⟨h1, h2⟩
+      · exact Or.inl h
+      · exact Or.inr ⟨fun h => (by rw [h1] at h; cases h), h2⟩
+
+theorem inv_clear (r : RR) : Inv r.clear :=
+  ⟨C05.RR_ok_clear r, fun _ => ⟨rfl, rfl⟩, fun _ => rfl⟩
+
+theorem inv_step (cfg : Cfg) (r : RR) (buf : Bytes) (h : Inv r) :
+    Inv (RR.afterResult cfg (RR.receive cfg r buf).1 (RR.receive cfg r buf).2.2) := by
+  have hok := RR.ok_step cfg r buf h.1
+  have hsh := receive_shape cfg r buf h
+  generalize RR.receive cfg r buf = p at hok hsh
+  obtain ⟨s, rest, x⟩ := p
+  dsimp only at hok hsh ⊢
+  rcases hsh with hsh | ⟨hA, hC⟩
+  · subst hsh; exact inv_clear s
+  · cases x with
+    | invalid => exact inv_clear s
+    | expectContinue =>
+      refine ⟨hok, fun hv => ?_, hC⟩
+      obtain ⟨_, _, h3⟩ := hA hv
+      cases h3
+    | incomplete => exact ⟨hok, fun hv => ⟨(hA hv).1, (hA hv).2.1⟩, hC⟩
+    | valid =>
+      simp only [RR.afterResult] at hok ⊢
+      split
+      · exact inv_clear s
+      · rename_i hc
+        simp only [hc] at hok
+        exact ⟨hok, fun hv => ⟨(hA hv).1, (hA hv).2.1⟩, hC⟩
+    | chunk =>
+      simp only [RR.afterResult] at hok ⊢
+      split
+      · exact inv_clear s
+      · rename_i hc
+        simp only [hc] at hok
+        exact ⟨hok, fun hv => ⟨(hA hv).1, (hA hv).2.1⟩, hC⟩
+
+/-- enough fuel is as good as any -/
+theorem loop_fuel (cfg : Cfg) : ∀ (f f' : Nat) (r : RR) (buf : Bytes), Inv r →
+    buf.length < f → buf.length < f' → loop cfg f r buf = loop cfg f' r buf := by
+  intro f
+  induction f with
+  | zero => intro f' r buf _ h; omega
+  | succ f ih =>
+    intro f' r buf hI h1 h2
+    cases f' with
+    | zero => omega
+    | succ f' =>
+      simp only [loop]
+      split
+      · rfl
+      · rename_i hne
+        split
+        · rfl
+        · rename_i hinv
+          have hne' : buf ≠ [] := by intro e; simp [e] at hne
+          have hp := RR.receive_progress cfg r buf hI.1 hne'
+          have hlt : (RR.receive cfg r buf).2.1.length < buf.length := by
+            rcases hp with hp | hp
+            · simp [hp] at hinv
+            · exact hp
+          rw [ih f' _ _ (inv_step cfg r buf hI) (by omega) (by omega)]
+
+theorem run_nil (cfg : Cfg) (r : RR) : run cfg r [] = (r, [], []) := by
+  simp [run, loop]
+
+def consE (e : Ev) (x : RR × Bytes × List Ev) : RR × Bytes × List Ev := (x.1, x.2.1, e :: x.2.2)
+
+/-- a `receive` result followed by the rest of the loop -/
+def stepRun (cfg : Cfg) (p : RR × Bytes × Rx) : RR × Bytes × List Ev :=
+  consE (p.2.2, p.1) (run cfg (RR.afterResult cfg p.1 p.2.2) p.2.1)
+
+theorem receive_lt (cfg : Cfg) (r : RR) (buf : Bytes) (hI : Inv r) (hne : buf ≠ [])
+    (hinv : (RR.receive cfg r buf).2.2 ≠ .invalid) : (RR.receive cfg r buf).2.1.length < buf.length := by
+  rcases RR.receive_progress cfg r buf hI.1 hne with hp | hp
+  · exact absurd hp hinv
+  · exact hp
+
+theorem run_cons (cfg : Cfg) (r : RR) (buf : Bytes) (hI : Inv r) (hne : buf ≠ [])
+    (hinv : (RR.receive cfg r buf).2.2 ≠ .invalid) : run cfg r buf = stepRun cfg (RR.receive cfg r buf) := by
+  have hlt := receive_lt cfg r buf hI hne hinv
+  have he : buf.isEmpty = false := by cases buf <;> simp_all
+  have hb : ((RR.receive cfg r buf).2.2 == Rx.invalid) = false := by
+    cases h : (RR.receive cfg r buf).2.2 <;> simp_all
+  simp only [run, stepRun, consE]
+  rw [loop]
+  simp only [he, Bool.false_eq_true, if_false, hb]
+  rw [loop_fuel cfg buf.length ((RR.receive cfg r buf).2.1.length + 1) _ _ (inv_step cfg r buf hI) hlt
+    (Nat.lt_succ_self _)]
+
+theorem run_cons_invalid (cfg : Cfg) (r : RR) (buf : Bytes) (hne : buf ≠ [])
+    (hinv : (RR.receive cfg r buf).2.2 = .invalid) : ¬ okE (run cfg r buf).2.2 := by
+  have he : buf.isEmpty = false := by cases buf <;> simp_all
+  simp only [run, loop, he, Bool.false_eq_true, if_false, hinv, beq_self_eq_true, if_true]
+  intro h
+  exact h _ (List.mem_singleton.mpr rfl) rfl
+
+theorem run_inv (cfg : Cfg) : ∀ (n : Nat) (r : RR) (buf : Bytes), buf.length ≤ n → Inv r →
+    Inv (run cfg r buf).1 := by
+  intro n
+  induction n with
+  | zero =>
+    intro r buf hn hI
+    have : buf = [] := List.length_eq_zero_iff.mp (by omega)
+    subst this
+    rw [run_nil]; exact hI
+  | succ n ih =>
+    intro r buf hn hI
+    by_cases hne : buf = []
+    · subst hne; rw [run_nil]; exact hI
+    · by_cases hinv : (RR.receive cfg r buf).2.2 = .invalid
+      · have he : buf.isEmpty = false := by cases buf <;> simp_all
+        simp only [run, loop, he, Bool.false_eq_true, if_false, hinv, beq_self_eq_true, if_true]
+        have := inv_step cfg r buf hI
+        rw [hinv] at this
+        exact this
+      · rw [run_cons cfg r buf hI hne hinv]
+        have hlt := receive_lt cfg r buf hI hne hinv
+        exact ih _ _ (by omega) (inv_step cfg r buf hI)
+
+
+/-! ### receiver states that differ only in the response code and the 100-continue flag -/
+
+def Sim (r r' : RR) : Prop :=
+  r.request = r'.request ∧ r.chunk = r'.chunk ∧ r.body = r'.body ∧ r.isHead = r'.isHead ∧
+  (r.request.valid = false → r.continueSent = r'.continueSent)
+
+theorem Sim.rfl' (r : RR) : Sim r r := ⟨rfl, rfl, rfl, rfl, fun _ => rfl⟩
+
+theorem Sim.elim {r r' : RR} (h : Sim r r') :
+    ∃ c s, r' = { r with code := c, continueSent := s } ∧ (r.request.valid = false → r.continueSent = s) := by
+  obtain ⟨h1, h2, h3, h4, h5⟩ := h
+  cases r; cases r'
+  simp only at h1 h2 h3 h4 h5
+  subst h1 h2 h3 h4
+  exact ⟨_, _, rfl, h5⟩
+
+theorem sim_pre (r r' : RR) (h : Sim r r') : Sim (pre r) (pre r') := by
+  obtain ⟨c, s, rfl, hs⟩ := h.elim
+  unfold pre
+  dsimp only
+  split <;> exact ⟨rfl, rfl, rfl, rfl, hs⟩
+
+theorem accum_sim (cfg : Cfg) (r r' : RR) (buf : Bytes) (h : Sim r r') :
+    Sim (accum cfg r buf).1 (accum cfg r' buf).1 ∧ (accum cfg r buf).2 = (accum cfg r' buf).2 := by
+  obtain ⟨c, s, rfl, hs⟩ := h.elim
+  rw [accum_mod cfg r buf c s]
+  obtain ⟨h1, _, h3, _⟩ := accum_facts cfg r buf
+  refine ⟨⟨rfl, rfl, rfl, rfl, ?_⟩, rfl⟩
+  intro hv
+  rw [h1] at hv
+  rw [h3]
+  exact hs hv
+
+theorem reset_mod (r : RR) (c : Nat) (s : Bool) :
+    reset { r with code := c, continueSent := s } = { reset r with code := c, continueSent := s } := by
+  unfold reset
+  dsimp only
+  split <;> rfl
+
+theorem chunkParse_sim (cfg : Cfg) (r : RR) (buf : Bytes) (c : Nat) (s : Bool)
+    (hs : r.request.valid = false → r.continueSent = s) :
+    Sim (chunkParse cfg r buf).1 (chunkParse cfg { r with code := c, continueSent := s } buf).1 ∧
+    (chunkParse cfg r buf).2 = (chunkParse cfg { r with code := c, continueSent := s } buf).2 := by
+  unfold chunkParse
+  dsimp only
+  by_cases h1 : (!(CK.parse cfg r.chunk buf).2.2 &&
+      (!(CK.parse cfg r.chunk buf).2.1.isEmpty || (CK.parse cfg r.chunk buf).1.fail)) = true
+  · rw [if_pos h1, if_pos h1]
+    exact ⟨Sim.rfl' _, rfl⟩
+  · rw [if_neg h1, if_neg h1]
+    by_cases h2 : (CK.parse cfg r.chunk buf).1.valid = true
+    · rw [if_pos h2, if_pos h2]
+      by_cases h3 : cfg.concatChunks = true
+      · rw [if_pos h3, if_pos h3]
+        by_cases h4 : (CK.parse cfg r.chunk buf).1.isLast = true
+        · rw [if_pos h4, if_pos h4]
+          exact ⟨⟨rfl, rfl, rfl, rfl, hs⟩, rfl⟩
+        · rw [if_neg h4, if_neg h4]
+          by_cases h5 : r.body.length + (CK.parse cfg r.chunk buf).1.data.length > cfg.maxContent
+          · rw [if_pos h5, if_pos h5]
+            exact ⟨Sim.rfl' _, rfl⟩
+          · rw [if_neg h5, if_neg h5]
+            exact ⟨⟨rfl, rfl, rfl, rfl, hs⟩, rfl⟩
+      · rw [if_neg h3, if_neg h3]
+        exact ⟨⟨rfl, rfl, rfl, rfl, hs⟩, rfl⟩
+    · rw [if_neg h2, if_neg h2]
+      exact ⟨⟨rfl, rfl, rfl, rfl, hs⟩, rfl⟩
+
+theorem post_sim (cfg : Cfg) (r : RR) (rp : Bool) (buf : Bytes) (c : Nat) (s : Bool)
+    (hs : r.request.valid = false → r.continueSent = s) (hrp : rp = true → r.continueSent = s) :
+    Sim (post cfg r rp buf).1 (post cfg { r with code := c, continueSent := s } rp buf).1 ∧
+    (post cfg r rp buf).2 = (post cfg { r with code := c, continueSent := s } rp buf).2 := by
+  have hcond : ∀ (t : Bool), (rp && t && !r.continueSent) = (rp && t && !s) := by
+    intro t
+    cases rp with
+    | false => rfl
+    | true => rw [hrp rfl]
+  unfold post
+  dsimp only
+  by_cases hm : r.request.missingHost = true
+  · rw [if_pos hm, if_pos hm]
+    exact ⟨⟨rfl, rfl, rfl, rfl, hs⟩, rfl⟩
+  rw [if_neg hm, if_neg hm]
+  by_cases hc : (!r.request.headers.isChunked) = true
+  · rw [if_pos hc, if_pos hc, receiveBody_eq, receiveBody_eq]
+    dsimp only
+    have hsim : Sim r { r with code := c, continueSent := s } := ⟨rfl, rfl, rfl, rfl, hs⟩
+    have hp := sim_pre _ _ hsim
+    split
+    · exact ⟨Sim.rfl' _, rfl⟩
+    · split
+      · exact ⟨Sim.rfl' _, rfl⟩
+      · split
+        · exact ⟨Sim.rfl' _, rfl⟩
+        · have h4 := hcond (decide ((buf.length : Int) < r.request.headers.contentLength) &&
+            r.request.expectContinue)
+          simp only [← Bool.and_assoc] at h4
+          rw [← h4]
+          split
+          · obtain ⟨p1, p2, p3, p4, p5⟩ := hp
+            exact ⟨⟨p1, p2, p3, p4, p5⟩, rfl⟩
+          · exact accum_sim cfg _ _ buf hp
+  · rw [if_neg hc, if_neg hc, receiveChunk_eq, receiveChunk_eq]
+    dsimp only
+    rw [reset_mod r c s]
+    obtain ⟨f1, _, f3, _⟩ := reset_facts r
+    have hs' : (reset r).request.valid = false → (reset r).continueSent = s := by
+      rw [f1, f3]; exact hs
+    have h4 : (rp && (r.request.expectContinue && !r.continueSent)) =
+        (rp && (r.request.expectContinue && !s)) := by
+      cases rp with
+      | false => rfl
+      | true => rw [hrp rfl]
+    rw [← h4]
+    split
+    · exact ⟨⟨rfl, rfl, rfl, rfl, hs'⟩, rfl⟩
+    · split
+      · exact ⟨⟨rfl, rfl, rfl, rfl, hs'⟩, rfl⟩
+      · exact chunkParse_sim cfg (reset r) buf c s hs'
+
+theorem receive_sim (cfg : Cfg) (r r' : RR) (buf : Bytes) (h : Sim r r') :
+    Sim (RR.receive cfg r buf).1 (RR.receive cfg r' buf).1 ∧
+    (RR.receive cfg r buf).2 = (RR.receive cfg r' buf).2 := by
+  obtain ⟨c, s, rfl, hs⟩ := h.elim
+  by_cases hv : r.request.valid = true
+  · rw [receive_valid cfg r buf hv, receive_valid cfg { r with code := c, continueSent := s } buf hv]
+    exact post_sim cfg r false buf c s hs (fun h => by cases h)
+  · have hv' : r.request.valid = false := by simpa using hv
+    have hcs := hs hv'
+    subst hcs
+    rw [receive_head cfg r buf hv', receive_head cfg { r with code := c, continueSent := r.continueSent } buf hv']
+    dsimp only
+    split
+    · split
+      · exact ⟨Sim.rfl' _, rfl⟩
+      · exact ⟨⟨rfl, rfl, rfl, rfl, fun _ => rfl⟩, rfl⟩
+    · exact post_sim cfg { r with request := (RQ.parse cfg r.request buf).1 } true
+        (RQ.parse cfg r.request buf).2.1 c r.continueSent (fun _ => rfl) (fun _ => rfl)
+
+theorem after_sim (cfg : Cfg) (s s' : RR) (x : Rx) (h : Sim s s') :
+    Sim (RR.afterResult cfg s x) (RR.afterResult cfg s' x) := by
+  obtain ⟨h1, h2, h3, h4, h5⟩ := h
+  cases x <;> simp only [RR.afterResult]
+  · exact Sim.rfl' _
+  · exact ⟨h1, h2, h3, h4, fun _ => rfl⟩
+  · exact ⟨h1, h2, h3, h4, h5⟩
+  · rw [h1]; split
+    · exact Sim.rfl' _
+    · exact ⟨h1, h2, h3, h4, h5⟩
+  · rw [h2]; split
+    · exact Sim.rfl' _
+    · exact ⟨h1, h2, h3, h4, h5⟩
+
+/-- two runs with the same observable behaviour -/
+def REq (x y : RR × Bytes × List Ev) : Prop :=
+  Sim x.1 y.1 ∧ x.2.1 = y.2.1 ∧ pay x.2.2 = pay y.2.2 ∧ (okE x.2.2 ↔ okE y.2.2)
+
+theorem REq.rfl' (x : RR × Bytes × List Ev) : REq x x := ⟨Sim.rfl' _, rfl, rfl, Iff.rfl⟩
+
+theorem viewE_sim (x : Rx) (s s' : RR) (h : Sim s s') : viewE (x, s) = viewE (x, s') := by
+  obtain ⟨h1, h2, h3, h4, _⟩ := h
+  simp only [viewE, viewOf, h1, h2, h3, h4]
+
+theorem pay_single_sim (x : Rx) (s s' : RR) (h : Sim s s') : pay [(x, s)] = pay [(x, s')] := by
+  simp only [pay, List.filter_cons, List.filter_nil]
+  split
+  · simp only [List.map_cons, List.map_nil, viewE_sim x s s' h]
+  · rfl
+
+theorem REq_consE (x : Rx) (s s' : RR) (y y' : RR × Bytes × List Ev) (hs : Sim s s') (h : REq y y') :
+    REq (consE (x, s) y) (consE (x, s') y') := by
+  obtain ⟨h1, h2, h3, h4⟩ := h
+  refine ⟨h1, h2, ?_, ?_⟩
+  · simp only [consE]
+    rw [pay_cons, pay_cons (x, s'), h3, pay_single_sim x s s' hs]
+  · simp only [consE, okE_cons, h4]
+
+/-- an INCOMPLETE or EXPECT_CONTINUE result is not a delivery -/
+theorem REq_skip (e : Ev) (x y : RR × Bytes × List Ev) (he : e.1 = .incomplete ∨ e.1 = .expectContinue)
+    (h : REq x y) : REq x (consE e y) := by
+  obtain ⟨h1, h2, h3, h4⟩ := h
+  refine ⟨h1, h2, ?_, ?_⟩
+  · simp only [consE]
+    rw [pay_cons, h3]
+    rcases he with he | he <;> simp [pay, he]
+  · simp only [consE, okE_cons, h4]
+    rcases he with he | he <;> simp [he]
+
+theorem run_sim (cfg : Cfg) : ∀ (n : Nat) (buf : Bytes) (r r' : RR), buf.length ≤ n → Inv r → Inv r' → Sim r r' →
+    REq (run cfg r buf) (run cfg r' buf) := by
+  intro n
+  induction n with
+  | zero =>
+    intro buf r r' hn _ _ hs
+    have : buf = [] := List.length_eq_zero_iff.mp (by omega)
+    subst this
+    rw [run_nil, run_nil]
+    exact ⟨hs, rfl, rfl, Iff.rfl⟩
+  | succ n ih =>
+    intro buf r r' hn hI hI' hs
+    by_cases hne : buf = []
+    · subst hne
+      rw [run_nil, run_nil]
+      exact ⟨hs, rfl, rfl, Iff.rfl⟩
+    · obtain ⟨s1, s2⟩ := receive_sim cfg r r' buf hs
+      have he : buf.isEmpty = false := by cases buf <;> simp_all
+      by_cases hinv : (RR.receive cfg r buf).2.2 = .invalid
+      · have hinv' : (RR.receive cfg r' buf).2.2 = .invalid := by rw [← s2]; exact hinv
+        simp only [run]
+        rw [loop, loop]
+        simp only [he, Bool.false_eq_true, if_false, hinv, hinv', beq_self_eq_true, if_true]
+        refine ⟨after_sim cfg _ _ _ s1, by rw [s2], ?_, ?_⟩
+        · exact pay_single_sim _ _ _ s1
+        · simp [okE]
+      · have hinv' : (RR.receive cfg r' buf).2.2 ≠ .invalid := by rw [← s2]; exact hinv
+        rw [run_cons cfg r buf hI hne hinv, run_cons cfg r' buf hI' hne hinv']
+        have hlt := receive_lt cfg r buf hI hne hinv
+        simp only [stepRun]
+        rw [← s2]
+        apply REq_consE _ _ _ _ _ s1
+        have hi1 := inv_step cfg r buf hI
+        have hi2 := inv_step cfg r' buf hI'
+        rw [← s2] at hi2
+        exact ih _ _ _ (by omega) hi1 hi2 (after_sim cfg _ _ _ s1)
+
+/-- same result up to `Sim`: same continuation -/
+theorem stepRun_sim (cfg : Cfg) (p p' : RR × Bytes × Rx) (hs : Sim p.1 p'.1) (he : p.2 = p'.2)
+    (hI : Inv (RR.afterResult cfg p.1 p.2.2)) (hI' : Inv (RR.afterResult cfg p'.1 p'.2.2)) :
+    REq (stepRun cfg p) (stepRun cfg p') := by
+  simp only [stepRun]
+  rw [← he] at hI' ⊢
+  exact REq_consE _ _ _ _ _ hs (run_sim cfg _ _ _ _ (Nat.le_refl _) hI hI' (after_sim cfg _ _ _ hs))
+
+/-! ### one `receive` call on `a ++ b` versus the loop over `a` followed by `b` -/
+
+theorem split_fin (cfg : Cfg) (p p' : RR × Bytes × Rx) (b : Bytes) (h : p = (p'.1, p'.2.1 ++ b, p'.2.2))
+    (hinv : p.2.2 ≠ .invalid) :
+    p'.2.2 ≠ .invalid ∧
+    REq (stepRun cfg p) (consE (p'.2.2, p'.1) (run cfg (RR.afterResult cfg p'.1 p'.2.2) (p'.2.1 ++ b))) := by
+  subst h
+  exact ⟨hinv, REq.rfl' _⟩
+
+theorem split_cont (cfg : Cfg) (p p' : RR × Bytes × Rx) (b : Bytes) (r' : RR) (h' : p' = (r', [], .incomplete))
+    (h : p = RR.receive cfg r' b) (hI : Inv r') (hb : b ≠ []) (hinv : p.2.2 ≠ .invalid) :
+    p'.2.2 ≠ .invalid ∧
+    REq (stepRun cfg p) (consE (p'.2.2, p'.1) (run cfg (RR.afterResult cfg p'.1 p'.2.2) (p'.2.1 ++ b))) := by
+  subst h h'
+  refine ⟨by simp, ?_⟩
+  simp only [RR.afterResult, List.nil_append]
+  rw [← run_cons cfg r' b hI hb hinv]
+  exact REq_skip _ _ _ (Or.inl rfl) (REq.rfl' _)
+
+
+
+theorem body_split (cfg : Cfg) (r : RR) (rp : Bool) (x b : Bytes) (hv : r.request.valid = true)
+    (hm : r.request.missingHost = false) (hc : r.request.headers.isChunked = false) (hb : b ≠ [])
+    (hrp0 : rp = false → (r.body.length : Int) < r.request.headers.contentLength)
+    (hrp1 : rp = true → r.body = [] ∧ r.continueSent = false)
+    (hinv : (RR.receiveBody cfg r rp (x ++ b)).2.2 ≠ .invalid)
+    (hI1 : Inv (RR.afterResult cfg (RR.receiveBody cfg r rp x).1 (RR.receiveBody cfg r rp x).2.2))
+    (hI2 : Inv (RR.afterResult cfg (RR.receiveBody cfg r rp (x ++ b)).1 (RR.receiveBody cfg r rp (x ++ b)).2.2)) :
+    (RR.receiveBody cfg r rp x).2.2 ≠ .invalid ∧
+    REq (stepRun cfg (RR.receiveBody cfg r rp (x ++ b)))
+      (consE ((RR.receiveBody cfg r rp x).2.2, (RR.receiveBody cfg r rp x).1)
+        (run cfg (RR.afterResult cfg (RR.receiveBody cfg r rp x).1 (RR.receiveBody cfg r rp x).2.2)
+          ((RR.receiveBody cfg r rp x).2.1 ++ b))) := by
+  have hblen : 0 < b.length := List.length_pos_iff.mpr hb
+  -- the checks that do not depend on the buffer pass
+  by_cases hB1 : ((r.request.isTrace && r.request.headers.contentLength != 0) ||
+      decide (r.request.headers.contentLength < 0)) = true
+  · exfalso; apply hinv; rw [receiveBody_eq]; dsimp only; rw [if_pos hB1]
+  by_cases hB2 : (decide (r.request.headers.contentLength > 0) &&
+      decide (r.request.headers.contentLength > (cfg.maxContent : Int))) = true
+  · exfalso; apply hinv; rw [receiveBody_eq]; dsimp only; rw [if_neg hB1, if_pos hB2]
+  have form : ∀ buf, RR.receiveBody cfg r rp buf =
+      if (!decide (r.request.headers.contentLength > 0) && decide ((buf.length : Int) > 0) &&
+           (r.request.headers.fields.find (b!"content-length")).isEmpty) = true then
+         (({ code := 411 } : RR), buf, .invalid)
+       else if (rp && decide ((buf.length : Int) < r.request.headers.contentLength) &&
+           r.request.expectContinue && !r.continueSent) = true then
+         ({ pre r with code := 100 }, buf, .expectContinue)
+       else accum cfg (pre r) buf := by
+    intro buf
+    rw [receiveBody_eq]; dsimp only; rw [if_neg hB1, if_neg hB2]
+  have hN : (!decide (r.request.headers.contentLength > 0) && decide (((x ++ b).length : Int) > 0) &&
+           (r.request.headers.fields.find (b!"content-length")).isEmpty) = false := by
+    cases h : (!decide (r.request.headers.contentLength > 0) && decide (((x ++ b).length : Int) > 0) &&
+           (r.request.headers.fields.find (b!"content-length")).isEmpty)
+    · rfl
+    · exfalso; apply hinv; rw [form, if_pos h]
+  have hcl0 : ¬ r.request.headers.contentLength < 0 := by
+    intro h; apply hB1; simp [h]
+  have hN' : ∀ buf : Bytes, (!decide (r.request.headers.contentLength > 0) && decide ((buf.length : Int) > 0) &&
+           (r.request.headers.fields.find (b!"content-length")).isEmpty) = false := by
+    intro buf
+    have : ((x ++ b).length : Int) > 0 := by simp only [List.length_append]; omega
+    simp only [this, decide_true, Bool.and_true] at hN
+    simp only [Bool.and_eq_false_iff] at hN ⊢
+    rcases hN with h | h
+    · exact Or.inl (Or.inl h)
+    · exact Or.inr h
+  have form2 : ∀ buf, RR.receiveBody cfg r rp buf =
+       if (rp && decide ((buf.length : Int) < r.request.headers.contentLength) &&
+           r.request.expectContinue && !r.continueSent) = true then
+         ({ pre r with code := 100 }, buf, .expectContinue)
+       else accum cfg (pre r) buf := by
+    intro buf
+    rw [form, hN' buf]
+    simp only [Bool.false_eq_true, if_false]
+  obtain ⟨pr1, _, pr3, pr4, _⟩ := pre_facts r
+  by_cases hE : (rp && decide ((x.length : Int) < r.request.headers.contentLength) &&
+           r.request.expectContinue && !r.continueSent) = true
+  · -- the first read ends before the body is complete and 100-continue is requested
+    have hE0 := hE
+    simp only [Bool.and_eq_true, decide_eq_true_eq, Bool.not_eq_true'] at hE0
+    obtain ⟨⟨⟨hrp, hxl⟩, hexp⟩, hcs⟩ := hE0
+    have hcl : r.request.headers.contentLength > 0 := by omega
+    have ht : r.request.isTrace = false := by
+      cases h : r.request.isTrace
+      · rfl
+      · exfalso; apply hB1
+        have : r.request.headers.contentLength ≠ 0 := by omega
+        simp [h, this]
+    have hpre : pre r = r := by simp [pre, ht]
+    have h413 : ¬ r.request.headers.contentLength > (cfg.maxContent : Int) := by
+      intro h; apply hB2; simp [h, hcl]
+    have eX : RR.receiveBody cfg r rp x = ({ r with code := 100 }, x, .expectContinue) := by
+      rw [form2, if_pos hE, hpre]
+    by_cases hE2 : (rp && decide (((x ++ b).length : Int) < r.request.headers.contentLength) &&
+           r.request.expectContinue && !r.continueSent) = true
+    · have eXB : RR.receiveBody cfg r rp (x ++ b) = ({ r with code := 100 }, x ++ b, .expectContinue) := by
+        rw [form2, if_pos hE2, hpre]
+      apply split_fin cfg _ _ b _ hinv
+      rw [eXB, eX]
+    · have eXB : RR.receiveBody cfg r rp (x ++ b) = accum cfg r (x ++ b) := by
+        rw [form2, if_neg hE2, hpre]
+      rw [eX]
+      refine ⟨by simp, ?_⟩
+      rw [eX] at hI1
+      rw [eXB] at hI2 ⊢
+      simp only [RR.afterResult] at hI1 ⊢
+      have hxb : x ++ b ≠ [] := by simp [hb]
+      have hrec := receive_acc cfg { r with code := 100, continueSent := true } (x ++ b) hv hm hc ht hcl h413
+      have hfacts := accum_facts cfg { r with code := 100, continueSent := true } (x ++ b)
+      have hni : (RR.receive cfg { r with code := 100, continueSent := true } (x ++ b)).2.2 ≠ .invalid := by
+        rw [hrec]
+        rcases hfacts.2.2.2.2 with h | h <;> simp [h]
+      rw [run_cons cfg _ (x ++ b) hI1 hxb hni, hrec]
+      have hI3 := inv_step cfg _ (x ++ b) hI1
+      rw [hrec] at hI3
+      have hsim : Sim r { r with code := 100, continueSent := true } :=
+        ⟨rfl, rfl, rfl, rfl, fun h => by rw [hv] at h; cases h⟩
+      obtain ⟨s1, s2⟩ := accum_sim cfg _ _ (x ++ b) hsim
+      exact REq_skip _ _ _ (Or.inr rfl) (stepRun_sim cfg _ _ s1 s2 hI2 hI3)
+  · -- no interim response on the first read, hence none on the single read
+    have hE' : ¬ (rp && decide (((x ++ b).length : Int) < r.request.headers.contentLength) &&
+           r.request.expectContinue && !r.continueSent) = true := by
+      intro h
+      apply hE
+      simp only [Bool.and_eq_true, decide_eq_true_eq, List.length_append] at h ⊢
+      exact ⟨⟨⟨h.1.1.1, by omega⟩, h.1.2⟩, h.2⟩
+    have eX : RR.receiveBody cfg r rp x = accum cfg (pre r) x := by rw [form2, if_neg hE]
+    have eXB : RR.receiveBody cfg r rp (x ++ b) = accum cfg (pre r) (x ++ b) := by rw [form2, if_neg hE']
+    have hle : (r.body.length : Int) ≤ r.request.headers.contentLength := by
+      cases rp with
+      | false => have := hrp0 rfl; omega
+      | true => rw [(hrp1 rfl).1]; simp only [List.length_nil]; omega
+    by_cases hshort : ((pre r).body.length : Int) + x.length < (pre r).request.headers.contentLength
+    · -- the body continues in `b`
+      have hcl : r.request.headers.contentLength > 0 := by rw [pr1, pr3] at hshort; omega
+      have ht : r.request.isTrace = false := by
+        cases h : r.request.isTrace
+        · rfl
+        · exfalso; apply hB1
+          have : r.request.headers.contentLength ≠ 0 := by omega
+          simp [h, this]
+      have hpre : pre r = r := by simp [pre, ht]
+      rw [hpre] at eX eXB hshort
+      have h413 : ¬ r.request.headers.contentLength > (cfg.maxContent : Int) := by
+        intro h; apply hB2; simp [h, hcl]
+      rw [accum_short cfg r x hshort] at eX
+      rw [accum_short_append cfg r x b hshort] at eXB
+      rw [← receive_acc cfg { r with body := r.body ++ x } b hv hm hc ht hcl h413] at eXB
+      have hI' : Inv { r with body := r.body ++ x } := by
+        have := hI1
+        rw [eX] at this
+        exact this
+      exact split_cont cfg _ _ b _ eX eXB hI' hb hinv
+    · -- the body is complete inside `x`
+      obtain ⟨_, hl2⟩ := accum_long cfg (pre r) x b (by rw [pr1, pr3]; exact hle) (by omega)
+      rw [← eX, ← eXB] at hl2
+      have hl1 : (RR.receiveBody cfg r rp x).2.2 = .valid := by
+        rw [eX]; exact (accum_long cfg (pre r) x b (by rw [pr1, pr3]; exact hle) (by omega)).1
+      rw [← hl1] at hl2
+      exact split_fin cfg _ _ b hl2 hinv
+
+theorem reset_of_not_valid (r : RR) (h : r.chunk.valid = false) : reset r = r := by
+  unfold reset
+  simp [h]
+
+theorem chunk_split (cfg : Cfg) (r : RR) (rp : Bool) (x b : Bytes) (hv : r.request.valid = true)
+    (hm : r.request.missingHost = false) (hc : r.request.headers.isChunked = true) (hb : b ≠ [])
+    (hck : r.chunk.valid = false → CK.done r.chunk = false)
+    (hinv : (RR.receiveChunk cfg r rp (x ++ b)).2.2 ≠ .invalid)
+    (hI1 : Inv (RR.afterResult cfg (RR.receiveChunk cfg r rp x).1 (RR.receiveChunk cfg r rp x).2.2)) :
+    (RR.receiveChunk cfg r rp x).2.2 ≠ .invalid ∧
+    REq (stepRun cfg (RR.receiveChunk cfg r rp (x ++ b)))
+      (consE ((RR.receiveChunk cfg r rp x).2.2, (RR.receiveChunk cfg r rp x).1)
+        (run cfg (RR.afterResult cfg (RR.receiveChunk cfg r rp x).1 (RR.receiveChunk cfg r rp x).2.2)
+          ((RR.receiveChunk cfg r rp x).2.1 ++ b))) := by
+  by_cases h1 : (rp && (r.request.expectContinue && !r.continueSent)) = true
+  · apply split_fin cfg _ _ b _ hinv
+    rw [receiveChunk_eq, receiveChunk_eq, if_pos h1, if_pos h1]
+  by_cases h2 : (rp && !cfg.concatChunks) = true
+  · apply split_fin cfg _ _ b _ hinv
+    rw [receiveChunk_eq, receiveChunk_eq, if_neg h1, if_neg h1, if_pos h2, if_pos h2]
+  have e : ∀ buf, RR.receiveChunk cfg r rp buf = chunkParse cfg (reset r) buf := by
+    intro buf; rw [receiveChunk_eq, if_neg h1, if_neg h2]
+  obtain ⟨f1, _, _, _, _, f6, f7⟩ := reset_facts r
+  have hd0 := f7 hck
+  by_cases hcnd : (CK.done (CK.parse cfg (reset r).chunk x).1 ||
+      !(CK.parse cfg (reset r).chunk x).2.1.isEmpty) = true
+  · apply split_fin cfg _ _ b _ hinv
+    rw [e, e]
+    exact chunkParse_fin cfg (reset r) x b f6 hd0 hcnd
+  · have hcnd' : (CK.done (CK.parse cfg (reset r).chunk x).1 ||
+        !(CK.parse cfg (reset r).chunk x).2.1.isEmpty) = false := by simpa using hcnd
+    obtain ⟨c1, c2, c3, c4⟩ := chunkParse_cont cfg (reset r) x b f6 hd0 hcnd'
+    have hv' : ({ reset r with chunk := (CK.parse cfg (reset r).chunk x).1 } : RR).request.valid = true := by
+      show (reset r).request.valid = true
+      rw [f1]; exact hv
+    have hrec : RR.receive cfg { reset r with chunk := (CK.parse cfg (reset r).chunk x).1 } b =
+        chunkParse cfg { reset r with chunk := (CK.parse cfg (reset r).chunk x).1 } b := by
+      rw [receive_valid cfg _ b hv']
+      unfold post
+      have hm' : ({ reset r with chunk := (CK.parse cfg (reset r).chunk x).1 } : RR).request.missingHost = false := by
+        show (reset r).request.missingHost = false
+        rw [f1]; exact hm
+      have hc' : ({ reset r with chunk := (CK.parse cfg (reset r).chunk x).1 } : RR).request.headers.isChunked
+          = true := by
+        show (reset r).request.headers.isChunked = true
+        rw [f1]; exact hc
+      rw [hm', hc', receiveChunk_eq]
+      simp only [Bool.false_eq_true, if_false, Bool.false_and, Bool.not_true]
+      rw [reset_of_not_valid { reset r with chunk := (CK.parse cfg (reset r).chunk x).1 } c2]
+    have eX := (e x).trans c1
+    have eXB := ((e (x ++ b)).trans c4).trans hrec.symm
+    have hI' : Inv { reset r with chunk := (CK.parse cfg (reset r).chunk x).1 } := by
+      have := hI1
+      rw [eX] at this
+      exact this
+    exact split_cont cfg _ _ b _ eX eXB hI' hb hinv
+
+theorem post_split (cfg : Cfg) (r : RR) (rp : Bool) (x b : Bytes) (hv : r.request.valid = true) (hb : b ≠ [])
+    (hrp0 : rp = false → r.request.headers.isChunked = false →
+       (r.body.length : Int) < r.request.headers.contentLength)
+    (hrp1 : rp = true → r.body = [] ∧ r.continueSent = false)
+    (hck : r.chunk.valid = false → CK.done r.chunk = false)
+    (hinv : (post cfg r rp (x ++ b)).2.2 ≠ .invalid)
+    (hI1 : Inv (RR.afterResult cfg (post cfg r rp x).1 (post cfg r rp x).2.2))
+    (hI2 : Inv (RR.afterResult cfg (post cfg r rp (x ++ b)).1 (post cfg r rp (x ++ b)).2.2)) :
+    (post cfg r rp x).2.2 ≠ .invalid ∧
+    REq (stepRun cfg (post cfg r rp (x ++ b)))
+      (consE ((post cfg r rp x).2.2, (post cfg r rp x).1)
+        (run cfg (RR.afterResult cfg (post cfg r rp x).1 (post cfg r rp x).2.2) ((post cfg r rp x).2.1 ++ b))) := by
+  have hm : r.request.missingHost = false := by
+    cases hm : r.request.missingHost
+    · rfl
+    · exfalso; apply hinv; simp [post, hm]
+  cases hc : r.request.headers.isChunked
+  · have e : ∀ buf, post cfg r rp buf = RR.receiveBody cfg r rp buf := by intro buf; simp [post, hm, hc]
+    rw [e x] at hI1 ⊢
+    rw [e (x ++ b)] at hinv hI2 ⊢
+    exact body_split cfg r rp x b hv hm hc hb (fun h => hrp0 h hc) hrp1 hinv hI1 hI2
+  · have e : ∀ buf, post cfg r rp buf = RR.receiveChunk cfg r rp buf := by intro buf; simp [post, hm, hc]
+    rw [e x] at hI1 ⊢
+    rw [e (x ++ b)] at hinv ⊢
+    exact chunk_split cfg r rp x b hv hm hc hb hck hinv hI1
+
+theorem step_split (cfg : Cfg) (r : RR) (a b : Bytes) (hI : Inv r) (hb : b ≠ [])
+    (hinv : (RR.receive cfg r (a ++ b)).2.2 ≠ .invalid) :
+    (RR.receive cfg r a).2.2 ≠ .invalid ∧
+    REq (stepRun cfg (RR.receive cfg r (a ++ b)))
+      (consE ((RR.receive cfg r a).2.2, (RR.receive cfg r a).1)
+        (run cfg (RR.afterResult cfg (RR.receive cfg r a).1 (RR.receive cfg r a).2.2)
+          ((RR.receive cfg r a).2.1 ++ b))) := by
+  have hI1 := inv_step cfg r a hI
+  have hI2 := inv_step cfg r (a ++ b) hI
+  obtain ⟨⟨ok1, _, ok3⟩, hA, hC⟩ := hI
+  by_cases hv : r.request.valid = true
+  · rw [receive_valid cfg r a hv] at hI1 ⊢
+    rw [receive_valid cfg r (a ++ b) hv] at hI2 hinv ⊢
+    exact post_split cfg r false a b hv hb (fun _ hc => ok1 hv hc) (fun h => by cases h) hC hinv hI1 hI2
+  · have hv' : r.request.valid = false := by simpa using hv
+    obtain ⟨hd, hcs⟩ := hA hv'
+    have hval := RQ_parse_valid cfg r.request a hv'
+    have law := RQ.parse_seq cfg r.request a b hd
+    by_cases hbo : (RQ.parse cfg r.request a).2.2 = true
+    · -- the head is completed inside `a`
+      rw [hbo] at hval
+      have hdone : RQ.done (RQ.parse cfg r.request a).1 = true := by simp [RQ.done, hval]
+      simp only [hdone, Bool.true_or, if_true] at law
+      have eA : RR.receive cfg r a =
+          post cfg { r with request := (RQ.parse cfg r.request a).1 } true (RQ.parse cfg r.request a).2.1 := by
+        rw [receive_head cfg r a hv']
+        simp [hbo]
+      have eAB : RR.receive cfg r (a ++ b) =
+          post cfg { r with request := (RQ.parse cfg r.request a).1 } true
+            ((RQ.parse cfg r.request a).2.1 ++ b) := by
+        rw [receive_head cfg r (a ++ b) hv', law]
+        simp [hbo]
+      rw [eA] at hI1 ⊢
+      rw [eAB] at hI2 hinv ⊢
+      exact post_split cfg _ true _ b hval hb (fun h => by cases h) (fun _ => ⟨ok3 hv', hcs⟩) hC hinv hI1 hI2
+    · have hbo' : (RQ.parse cfg r.request a).2.2 = false := by simpa using hbo
+      rw [hbo'] at hval
+      by_cases hfin : (RQ.parse cfg r.request a).1.fail = true ∨ (RQ.parse cfg r.request a).2.1 ≠ []
+      · exfalso
+        obtain ⟨_, h2⟩ := RR.receive_head_fail_seq cfg r a b hv' hd ⟨hbo', hfin⟩
+        apply hinv
+        rw [h2]
+      · have hf : (RQ.parse cfg r.request a).1.fail = false := by
+          cases h : (RQ.parse cfg r.request a).1.fail
+          · rfl
+          · exact absurd (Or.inl h) hfin
+        have hr : (RQ.parse cfg r.request a).2.1 = [] := by
+          cases h : (RQ.parse cfg r.request a).2.1
+          · rfl
+          · exact absurd (Or.inr (by simp [h])) hfin
+        have hd1 := RQ_done_of _ hval hf
+        obtain ⟨h1, h2⟩ := RR.receive_head_seq cfg r a b hv' hd ⟨hd1, hr⟩
+        have hI' : Inv { r with request := (RQ.parse cfg r.request a).1 } := by
+          have := hI1
+          rw [h1] at this
+          exact this
+        exact split_cont cfg _ _ b _ h1 h2 hI' hb hinv
+
+/-- two reads: the run over `a ++ b` is the run over `a` followed by the run over `b` -/
+theorem run_split (cfg : Cfg) (b : Bytes) (hb : b ≠ []) : ∀ (n : Nat) (a : Bytes) (r : RR), a.length ≤ n → Inv r →
+    okE (run cfg r (a ++ b)).2.2 → (run cfg r (a ++ b)).2.1 = [] →
+    okE (run cfg r a).2.2 ∧ (run cfg r a).2.1 = [] ∧
+    okE (run cfg (run cfg r a).1 b).2.2 ∧ (run cfg (run cfg r a).1 b).2.1 = [] ∧
+    pay (run cfg r (a ++ b)).2.2 = pay (run cfg r a).2.2 ++ pay (run cfg (run cfg r a).1 b).2.2 := by
+  intro n
+  induction n with
+  | zero =>
+    intro a r hn hI hok hrest
+    have : a = [] := List.length_eq_zero_iff.mp (by omega)
+    subst this
+    rw [run_nil]
+    simp only [List.nil_append] at hok hrest
+    refine ⟨by simp [okE], rfl, hok, hrest, by simp [pay]⟩
+  | succ n ih =>
+    intro a r hn hI hok hrest
+    by_cases ha : a = []
+    · subst ha
+      rw [run_nil]
+      simp only [List.nil_append] at hok hrest
+      exact ⟨by simp [okE], rfl, hok, hrest, by simp [pay]⟩
+    · have hab : a ++ b ≠ [] := by simp [ha]
+      have hinv : (RR.receive cfg r (a ++ b)).2.2 ≠ .invalid := by
+        intro h
+        exact run_cons_invalid cfg r (a ++ b) hab h hok
+      obtain ⟨hinv', heq⟩ := step_split cfg r a b hI hb hinv
+      rw [run_cons cfg r (a ++ b) hI hab hinv] at hok hrest ⊢
+      obtain ⟨_, e2, e3, e4⟩ := heq
+      have hlt := receive_lt cfg r a hI ha hinv'
+      have hI' := inv_step cfg r a hI
+      simp only [consE] at e2 e3 e4
+      rw [e2] at hrest
+      rw [e4, okE_cons] at hok
+      obtain ⟨i1, i2, i3, i4, i5⟩ := ih (RR.receive cfg r a).2.1 _ (by omega) hI' hok.2 hrest
+      rw [e3, run_cons cfg r a hI ha hinv']
+      simp only [stepRun, consE]
+      refine ⟨(okE_cons _ _).mpr ⟨hinv', i1⟩, i2, i3, i4, ?_⟩
+      rw [pay_cons, i5, pay_cons _ (run cfg _ (RR.receive cfg r a).2.1).2.2, List.append_assoc]
+
+theorem feedE_flatten (cfg : Cfg) (ps : List Bytes) (hne : ∀ p ∈ ps, p ≠ []) : ∀ (r : RR), Inv r →
+    okE (run cfg r ps.flatten).2.2 → (run cfg r ps.flatten).2.1 = [] →
+    pay (feedE cfg r ps).2 = pay (run cfg r ps.flatten).2.2 := by
+  induction ps with
+  | nil => intro r _ _ _; simp [feedE, run_nil]
+  | cons p ps ih =>
+    intro r hI hok hrest
+    simp only [feedE, List.flatten_cons] at hok hrest ⊢
+    by_cases hps : ps = []
+    · subst hps
+      simp [feedE]
+    · have hfl : ps.flatten ≠ [] := by
+        cases ps with
+        | nil => exact absurd rfl hps
+        | cons q qs =>
+          have := hne q (by simp)
+          simp [this]
+      obtain ⟨_, _, i3, i4, i5⟩ := run_split cfg ps.flatten hfl _ p r (Nat.le_refl _) hI hok hrest
+      rw [pay_append, i5]
+      rw [ih (fun q hq => hne q (List.mem_cons_of_mem _ hq)) _ (run_inv cfg _ _ _ (Nat.le_refl _) hI) i3 i4]
+
+end C01
+
+theorem C01_frag : C01_frag_statement := by
+  intro cfg bs hclean ps hps hne
+  obtain ⟨l1, l2, l3⟩ := C01.readLoop_loop cfg (bs.length + 1) {} bs []
+  simp only [Clean] at hclean
+  obtain ⟨c1, c2⟩ := hclean
+  rw [l2] at c1
+  have hok : C01.okE (C01.run cfg {} bs).2.2 := by
+    intro e he
+    simp only [List.reverse_nil, List.map_nil, List.nil_append] at l3
+    rw [C01.run, ← l3] at he
+    obtain ⟨d, hd, rfl⟩ := List.mem_map.mp he
+    exact c2 d hd
+  rw [C01.payload_eq_pay, C01.payload_eq_pay, (C01.feed_feedE cfg ps {}).2, (C01.feed_feedE cfg [bs] {}).2]
+  subst hps
+  rw [C01.feedE_flatten cfg ps hne {} C01.inv_init hok c1]
+  simp [C01.feedE]
+
+/-- the hypothesis of `C01_frag` is satisfiable by a non-trivial stream: a POST with a body, pipelined with a
+    chunked POST with an Expect header and a trailer, followed by a GET -/
+example : Clean {} (b!"POST /a HTTP/1.1\r\nHost: a\r\nContent-Length: 3\r\n\r\nabcPOST /b HTTP/1.1\r\nHost: a\r\nExpect: 100-continue\r\nTransfer-Encoding: chunked\r\n\r\n2;x=1\r\nhi\r\n0\r\nT: v\r\n\r\nGET /c HTTP/1.1\r\nHost: a\r\nContent-Length: 0\r\n\r\n") := by
+  unfold Clean
+  decide +kernel
+
+example : payload (RR.feed {} {} [b!"POST /a HTTP/1.1\r\nHost: a\r\nContent-Le", b!"ngth: 3\r\n\r\na",
+      b!"bcGET /c HTTP/1.1\r", b!"\nHost: a\r\nContent-Length: 0\r\n\r\n"]).2 =
+    payload (RR.feed {} {}
+      [b!"POST /a HTTP/1.1\r\nHost: a\r\nContent-Length: 3\r\n\r\nabcGET /c HTTP/1.1\r\nHost: a\r\nContent-Length: 0\r\n\r\n"]).2 :=
+  C01_frag {} _ (by unfold Clean; decide +kernel) _ rfl (by decide)
+
 end Via
